@@ -51,6 +51,8 @@ def rules(chk, db):
     # a Variant destination is re-seated through Become: destroy the old alternative, then construct the new one (typestate)
     from . import c12
     c12.explore(chk, db, prefix='TV.')
+    from . import c13
+    c13.typestate(chk, db, prefix='TS.')
     w = chk.extra.get('struct_member_order_w', {})
     r = chk.extra.get('struct_member_order_r', {})
     for t in sorted(set(w) & set(r)):      # types that are both written and read somewhere in the analysed units
